@@ -38,7 +38,7 @@ ASSUMPTIONS = [
     "epoch clauses ignore awaits/getter runs that span a del (DESIGN 9, C12 soundness note)",
 ]
 PROBES = ("arrival_during_compute", "del_during_compute", "cancel_during_compute", "getter_failed",
-          "second_instance", "held_awaitable_awaited_again", "stale_writeback_nolock", "lock_contended",
+          "second_instance", "other_instance_in_use", "held_awaitable_awaited_again", "stale_writeback_nolock", "lock_contended",
           "recompute_after_del")
 
 
@@ -69,7 +69,10 @@ def make_class(sc, sim, runs, lock_type, state):
         if lock_type is not None:
             task = sim.current
             rec["locked"] = any(lk.owner is task for lk in sim.locks)
-        runs.append(rec)
+        if sc.mode == "conc" and self.iid != 0:
+            state.other_runs.append(rec)  # another instance of the same class: its own business
+        else:
+            runs.append(rec)
         if any(r is not rec and r["status"] == "running" and r["inst"] == self.iid for r in runs):
             state.overlap_seen = True
         try:
@@ -80,7 +83,7 @@ def make_class(sc, sim, runs, lock_type, state):
                 rec["status"] = "failed"
                 rec["exc"] = GETTER_ERRORS[sc.fault_kind % len(GETTER_ERRORS)]("getter%d" % len(runs))
                 raise rec["exc"]
-            value = ["value", self.iid, runs.index(rec)]
+            value = ["value", self.iid, (runs if rec in runs else state.other_runs).index(rec)]
             rec["value"] = value
             rec["status"] = "ok"
             rec["end"] = state.tick()
@@ -132,6 +135,7 @@ def make_class(sc, sim, runs, lock_type, state):
 
 class TickState:
     def __init__(self):
+        self.other_runs = []
         self.t = 0
         self.fail_armed = {}
         self.overlap_seen = False
@@ -338,6 +342,8 @@ def gen_conc(ch):
     sc.fault_kind = ch.draw(len(GETTER_ERRORS))
     sc.falsy_inst = ch.chance(1, 4)
     sc.owner_kind = ch.weighted([4, 1, 1])
+    # a bystander task uses the same property on ANOTHER instance meanwhile (await / del / await ...)
+    sc.bystander = [ch.draw(3) for _ in range(ch.between(1, 4))] if ch.chance(1, 3) else None
     return sc
 
 
@@ -406,6 +412,23 @@ def run_conc(sc, st, ctx, out, sim):
                 out.probes["del_during_compute"] = 1
 
     tasks = [sim.spawn(awaiter(i, ops), "a%d" % i) for i, ops in enumerate(sc.progs)]
+    if sc.bystander is not None:
+        other = Holder(1)
+
+        async def bystander():
+            for n_, pauses in enumerate(sc.bystander):
+                for _ in range(pauses):
+                    await sim.suspend(PAUSE, None, "bystander")
+                if n_ % 2:
+                    try:
+                        del other.attr
+                    except AttributeError:
+                        pass
+                else:
+                    await other.attr
+                    out.probes["other_instance_in_use"] = 1
+
+        sim.spawn(bystander(), "bystander")
     if sc.deleter is not None:
         sim.spawn(deleter(sc.deleter), "deleter")
     if sc.cancel is not None:
@@ -427,6 +450,7 @@ def run_conc(sc, st, ctx, out, sim):
     def describe():
         return {"mode": "concurrent", "backend": sc.backend, "lock": sc.lock, "lock_policy": [sc.lock_policy, sc.lock_acq, sc.lock_rel],
                 "getter_suspensions": sc.gsusp, "programs": sc.progs, "deleter": sc.deleter,
+                "bystander_on_another_instance": sc.bystander,
                 "fail_first": sc.fail_first,
                 "cancel": {"task": sc.cancel, "fired_at": sim.cancel_fired_at} if sc.cancel is not None else None,
                 "getter_runs": [{k: (repr(v) if k == "value" else v) for k, v in r.items()} for r in runs],
